@@ -103,7 +103,7 @@ def main():
             # the change was rebased by hand after later fix: commits touched the same lines
             shutil.rmtree(repo)
             shutil.copytree("/repo", repo, ignore=shutil.ignore_patterns(".git"))
-            rc, out = sh("patch -p2 --no-backup-if-mismatch -d proxy < %s" % os.path.join(d, "patch.rebased.diff"), cwd=repo)
+            rc, out = sh("patch -p1 --no-backup-if-mismatch < %s" % os.path.join(d, "patch.rebased.diff"), cwd=repo)
         res["patch_applies_to_repo"] = rc == 0
         if rc != 0:
             res["patch_out"] = out[-500:]
